@@ -529,6 +529,100 @@ fn cmd_search() {
     }
 }
 
+
+/// FEN of a board (placement from get_piece, rights from castle_status, en passant square from
+/// the file and the side to move, clocks)
+fn to_fen(b: &Board) -> String {
+    let mut rows = Vec::new();
+    for r in (0..8u8).rev() {
+        let mut row = String::new();
+        let mut empty = 0;
+        for f in 0..8u8 {
+            match b.get_piece(Square { rank: r, file: f }) {
+                None => empty += 1,
+                Some(k) => {
+                    if empty > 0 {
+                        row.push_str(&empty.to_string());
+                        empty = 0;
+                    }
+                    let c = match k {
+                        Kind::Pawn(_) => 'p',
+                        Kind::King(_) => 'k',
+                        Kind::Queen(_) => 'q',
+                        Kind::Rook(_) => 'r',
+                        Kind::Bishop(_) => 'b',
+                        Kind::Knight(_) => 'n',
+                    };
+                    row.push(if k.get_color() == Color::White { c.to_ascii_uppercase() } else { c });
+                }
+            }
+        }
+        if empty > 0 {
+            row.push_str(&empty.to_string());
+        }
+        rows.push(row);
+    }
+    let mut rights = String::new();
+    for (k, c) in [
+        (CastlingKind::WhiteKingside, 'K'),
+        (CastlingKind::WhiteQueenside, 'Q'),
+        (CastlingKind::BlackKingside, 'k'),
+        (CastlingKind::BlackQueenside, 'q'),
+    ] {
+        if b.castle_status(k) == CastlingStatus::Available {
+            rights.push(c);
+        }
+    }
+    if rights.is_empty() {
+        rights.push('-');
+    }
+    let ep = b.verif_en_passant_file().map_or("-".to_string(), |f| {
+        format!("{}{}", (b'a' + f) as char, if b.current_turn == Color::White { 6 } else { 3 })
+    });
+    format!(
+        "{} {} {} {} {} {}",
+        rows.join("/"),
+        if b.current_turn == Color::White { "w" } else { "b" },
+        rights,
+        ep,
+        b.get_halfmove_clock(),
+        b.fullmove_counter
+    )
+}
+
+/// randfens <seed> <maxlen>: stdin lines of FENs -> the FEN of the position after a random legal
+/// walk from each (same generator as randwalk)
+fn cmd_randfens(args: &[String]) {
+    let seed: u64 = args.first().and_then(|s| s.parse().ok()).unwrap_or(1);
+    let maxlen: usize = args.get(1).and_then(|s| s.parse().ok()).unwrap_or(30);
+    let mut rng = Rng(seed);
+    let mut o = out();
+    for line in std::io::stdin().lock().lines() {
+        let fen = line.unwrap();
+        if fen.trim().is_empty() {
+            continue;
+        }
+        let r = catch_unwind(AssertUnwindSafe(|| {
+            let mut b = Board::from_fen(fen.trim());
+            let len = rng.below(maxlen + 1);
+            for _ in 0..len {
+                let legal = b.get_legal_moves();
+                if legal.is_empty() {
+                    break;
+                }
+                let caps: Vec<&Ply> = legal.iter().filter(|m| m.captured_piece.is_some() || m.promoted_to.is_some()).collect();
+                let pick = if !caps.is_empty() && rng.below(3) == 0 { *caps[rng.below(caps.len())] } else { legal[rng.below(legal.len())] };
+                b.make_move(pick);
+            }
+            to_fen(&b)
+        }));
+        match r {
+            Ok(s) => writeln!(o, "{s}").unwrap(),
+            Err(_) => writeln!(o, "PANIC").unwrap(),
+        }
+    }
+}
+
 pub fn main(args: &[String]) {
     // keep panics quiet: they are reported as outcomes
     std::panic::set_hook(Box::new(|_| {}));
@@ -539,6 +633,7 @@ pub fn main(args: &[String]) {
         "occ" => cmd_occ(),
         "walk" => cmd_walk(&args[1..]),
         "fen" => cmd_fen(),
+        "randfens" => cmd_randfens(&args[1..]),
         "eval" => cmd_eval(),
         "parse" => cmd_parse(),
         "search" => cmd_search(),
